@@ -100,7 +100,7 @@ def run(ctx):
     built = ctx.build("C06_closure", deps=["Model/TaskGraph.v"])
     quick = ctx.tier == "quick"
     rng = ctx.rng
-    n_rand = 500 if quick else 6000
+    n_rand = 350 if quick else 6000
     triples = [tg.rand_case(rng, ["cancel"]) for _ in range(n_rand)]
     triples += [closed_case(rng) for _ in range(n_rand)]
     ex = exhaustive(3 if quick else 4, [1, 1, 2, 3, 8, 1, 4, 1, 7, 1, 1])
